@@ -82,7 +82,17 @@ func symOf(s string) string {
 	return "?" + hex.EncodeToString([]byte(s))
 }
 
-var bigInts = map[string]int{"max64": math.MaxInt64, "min64": math.MinInt64, "2^31": 1 << 31, "-2^31-1": -(1 << 31) - 1, "max64-1": math.MaxInt64 - 1}
+var bigInts = map[string]int{"max64": math.MaxInt64, "min64": math.MinInt64, "2^31": 1 << 31, "-2^31-1": -(1 << 31) - 1, "max64-1": math.MaxInt64 - 1,
+	"2^32": 1 << 32, "2^32+2": 1<<32 + 2, "2^40+1": 1<<40 + 1}
+
+// dbRec gives a database id as the specification sees it: ids that do not fit TLC's integers are all -1 (Conn.tla: "unknown big
+// id"), so that a big id cut down to its low bits (a small number) is told from the id itself
+func dbRec(id int) int {
+	if id > -(1<<31) && id < (1<<31)-1 {
+		return id
+	}
+	return -1
+}
 
 func intRec(n int) Ev {
 	if n > -(1<<31) && n < (1<<31)-1 {
